@@ -423,9 +423,9 @@ def edit_constant(parameterized):
                 _unlocked_constants.pop(id(relock), None)
                 try:
                     relock.constant = True
-                except Exception as e:
-                    # a watcher of the attribute raised: the others are
-                    # locked again all the same
+                except BaseException as e:
+                    # a watcher of the attribute raised (or was interrupted):
+                    # the others are locked again all the same
                     failure = failure or e
         if failure is not None:
             raise failure
